@@ -5,12 +5,15 @@ import os
 def run(ctx):
     scen = os.path.join(ctx.work, "ext.scen.ndjson")
     open(scen, "w").close()
-    for cfg in (["GenX_n1", "GenX_n2"] if ctx.quick else ["GenX_n1", "GenX_n2", "GenX_n2z", "GenX_n2m", "GenX_n3"]):
+    for cfg in (["GenX_n1", "GenX_n2", "GenX_n3c"] if ctx.quick else ["GenX_n1", "GenX_n2", "GenX_n3c", "GenX_n2z", "GenX_n2m", "GenX_n3"]):
         part = ctx.gen("System", "Gen_Ext.tla", cfg + ".cfg", cfg, workers=8, timeout=6000, heap="16g")
         with open(scen, "a") as out:
             for i, line in enumerate(open(part)):
-                if cfg != "GenX_n3" or i % 4 == 0:      # three classes: every fourth scenario of the enumeration
-                    out.write(line)
+                if cfg == "GenX_n3" and i % 4:           # three classes, two dependencies per equation: every fourth scenario of the enumeration
+                    continue
+                if ctx.quick and cfg in ("GenX_n2", "GenX_n3c") and i % 2:   # quick: every second
+                    continue
+                out.write(line)
     ctx.sample(scen, 3)
     trace = ctx.execute("system", scen, timeout_s=120)
     ctx.validate("System", "Trace_System.tla", "Trace_C20.cfg", trace, "system", parallel=12)
